@@ -1,6 +1,7 @@
 package main
 
 import (
+	"bytes"
 	"fmt"
 	"math/rand"
 	"strings"
@@ -38,6 +39,7 @@ type seqOpts struct {
 	GetE      bool // include get-with-expiry among the generated commands
 	Directed  bool // also run the directed mixed-tier multi-key gets
 	ExtraCfgs []StackCfg
+	Remnant   bool // also run the history of finding D23 on two-tier chunked stacks
 	Probe     func(sc Scenario, i int, st *Stack, d *Driver, ob StepObs) []Violation
 }
 
@@ -150,6 +152,9 @@ func runSequences(rep *Report, tier string, seed int64, perCfg int, o seqOpts, a
 		if o.Directed && cfg.Orca == "l1l2" {
 			directed = mixedTierGets(cfg, fmt.Sprintf("%s-%d-mixed", rep.Property, ci))
 			directed = append(directed, hotKeyWrites(cfg, fmt.Sprintf("%s-%d-hot", rep.Property, ci))...)
+		}
+		if o.Remnant && cfg.Orca == "l1l2" && cfg.L1 == "chunked" {
+			directed = append(directed, remnantAdd(cfg, fmt.Sprintf("%s-%d-remnant-add", rep.Property, ci)))
 		}
 		for n := -len(directed); n < perCfg; n++ {
 			var sc Scenario
@@ -341,5 +346,42 @@ func classifyMiss(sc Scenario, step int, obs []StepObs) string {
 			return "locked-text-multiget-one-END-per-key"
 		}
 	}
+	if s.Cmd.Kind == "add" && sc.Stack.Orca == "l1l2" && sc.Stack.L1 == "chunked" && addRefused(proto, obs[step].Out) {
+		// an `add` refused although the single map does not hold the key, after L1 lost a CHUNK
+		// entry of that key (not its metadata entry): the metadata that stayed behind answers
+		// "exists" to the L1 leg of the add (finding D23)
+		for j := 0; j < step; j++ {
+			e := sc.Steps[j]
+			if (e.Kind == "evict" || e.Kind == "drop") && e.Tier != "L2" && strings.HasPrefix(string(e.Key), string(s.Cmd.Key)+"-") &&
+				string(e.Key) != string(s.Cmd.Key)+"-meta" {
+				return "chunked-l1-remnant-blocks-add"
+			}
+		}
+	}
 	return fmt.Sprintf("spec-mismatch:%s:%s:%s", sc.Stack, proto, s.Cmd.Kind)
+}
+
+// addRefused: the reply to an add says "not stored" / key exists.
+func addRefused(proto string, out []byte) bool {
+	if proto == "text" {
+		return strings.HasPrefix(string(out), "NOT_STORED")
+	}
+	return len(out) >= 8 && out[0] == 0x81 && out[6] == 0 && out[7] == 2
+}
+
+// remnantAdd: the history of finding D23 — a value of three chunks, L1 loses one chunk entry, the
+// key's lifetime is ended by a touch with a date in the past (L2 drops it; the chunking handler
+// cannot touch the torn L1 copy and leaves its metadata entry alive), then an add.
+func remnantAdd(cfg StackCfg, id string) Scenario {
+	sc := Scenario{ID: id, Stack: cfg}
+	sc.Conns = []ConnCfg{{ID: "t", Port: "main", Proto: "text"}, {ID: "b", Port: "main", Proto: "bin"}}
+	k := []byte("rk")
+	feed := func(conn string, c Command) { sc.Steps = append(sc.Steps, Step{Kind: "feed", Conn: conn, Cmd: c}) }
+	feed("b", Command{Kind: "set", Key: k, Flags: 1, Data: bytes.Repeat([]byte{'v'}, 2300), Opaque: 1})
+	sc.Steps = append(sc.Steps, Step{Kind: "evict", Tier: "L1", Key: []byte("rk-1")})
+	feed("t", Command{Kind: "touch", Key: k, Exptime: uint32(time.Now().Unix() - 100), Opaque: 2})
+	feed("b", Command{Kind: "get", Keys: []GetKey{{Key: k, Opaque: 3}}})
+	feed("t", Command{Kind: "add", Key: k, Flags: 2, Data: []byte("new"), Opaque: 4})
+	feed("b", Command{Kind: "get", Keys: []GetKey{{Key: k, Opaque: 5}}})
+	return sc
 }
